@@ -13,6 +13,8 @@ style = {
   "2": "Prefer a change that needs two cooperating sites that each look fine alone, or a multi-step sequence / unusual input to manifest. Avoid the most obvious one-line change in the anchored mechanism.",
   "3": "Prefer a subtle boundary-condition or branch-specific change (a particular size, a particular kind of target, a rarely taken branch), different from simply deleting a check.",
   "4": "Prefer a change whose effect shows only for an input class at the edge of the quantifier's range (a maximum size, a legal but unusual combination of fields, a state that is reachable only through an earlier protocol operation), not for typical inputs.",
+  "6": "Prefer a change to how the server REACTS after an earlier failure or unusual event (an error path, a retry, a reload, a leftover of an interrupted operation, a request repeated or arriving in an unusual order), leaving the ordinary success path alone.",
+  "7": "Prefer a performance-motivated change (caching, batching, buffer or object reuse, avoiding a copy, a lock or a system call) whose staleness or aliasing shows only after a particular sequence of operations.",
   "5": "Prefer a change in code OUTSIDE the anchored mechanisms that the property nevertheless depends on (a helper, a manager, a codec, an initialisation or reload path), leaving the anchored functions themselves untouched.",
 }.get(n, "")
 print(f"""You are helping test a verification framework for the Go project jhalter/mobius (a server for the 1990s Hotline chat/file-sharing protocol). Your job is to act as a realistic source of regressions.
